@@ -287,7 +287,8 @@ func (c *Cluster) fetch(a *Actor, h hotstuff.Hash) (*hotstuff.Block, bool) {
 				return b, true
 			}
 		} else if o.Byz != nil {
-			if b, ok := o.Byz.serve[h]; ok {
+			// a Byzantine replica answers block requests selectively (fixed per requester and block)
+			if b, ok := o.Byz.serve[h]; ok && (vbase.Hash64(fmt.Sprint(a.Idx, h, c.Cfg.Steps))%3 != 0 || c.Cfg.Profile == "subject-votes") {
 				return b, true
 			}
 		}
